@@ -20,38 +20,11 @@ def posix_decode(s):
     return "other"
 
 
-def check(ctx, run):
-    prog = ctx.program()
-    run.assume("wait-status encoding and the W* macros are glibc's (trusted base); exited / signalled / stopped are mutually exclusive for statuses the kernel produces")
-    run.not_decided.append("kernel behaviour per signal; that the child really dies the way its status says")
-    run.rule("R1", "status decoding folded over every exit status 0..255, every signal 1..127 (with and without core flag), every stop signal and the continued status: exactly one failure for exit!=0 / signalled / stopped, none for exit 0", floor=600, exhaustive=True)
-    run.rule("R2", "wait loop per iteration: a non-EINTR error or EINTR past the bound reports one failure and returns; EINTR below the bound only counts and retries; a successful wait decodes the status once, continues a stopped child with SIGCONT and repeats until exited or signalled; a failing fork reports once and does not wait", floor=8)
-    run.rule("R3", "the child never returns: on the cpid == 0 branch every path ends in _exit(initial failure count < current failure count) after running the test in-process", floor=2)
-    run.rule("R4", "containment in the runner: both modes go through PlatformSpecificSetJmp; the registry marks every test (not only some) before it runs; fork/waitpid seams forward their arguments", floor=7)
-
+def separate_process_rules(prog, run, rid_parent, rid_child):
+    """the fork-based runner folded against scripted fork / waitpid / errno answers (parent: rid_parent; child branch:
+    rid_child). Shared with C01: the child's exit status is how a failure crosses the process boundary."""
     sp = prog.fn("GccPlatformSpecificRunTestInASeperateProcess")
-    st = prog.fn("SetTestFailureByStatusCode")
     run.analysed(sp)
-    run.analysed(st)
-
-    # ---------------- R1 ----------------------------------------------------
-    stname = st.params[2]["name"]
-    statuses = [c << 8 for c in range(256)] + [s for s in range(1, 128)] + [s | 0x80 for s in range(1, 128)] + [(s << 8) | 0x7f for s in range(1, 128)] + [0xffff]
-    for s in statuses:
-        ev = Evaluator(prog, st, env={stname: s, st.params[0]["name"]: 1, st.params[1]["name"]: 2})
-        ev.pass_object = True
-        fails = []
-        ev.calls["TestResult::addFailure"] = lambda *a, fails=fails: (fails.append(1), 0)[1]
-        try:
-            ev.run_blocks(st.entry, max_steps=300)
-            got = len(fails)
-        except Unknown as u:
-            got = "unknown: %s" % u
-        kind = posix_decode(s)
-        want = 1 if kind in ("exit", "signal", "stopped") else 0
-        run.ob("R1", "status 0x%04x (%s)" % (s, kind), st.site, got == want, witness={"failures_recorded": got, "oracle": want},
-               what="" if got == want else "a child that %s is recorded with %s failures" % ({"exit": "exits non-zero", "exit0": "exits 0", "signal": "is killed by a signal", "stopped": "is stopped", "other": "continues"}[kind], got))
-
     # ---------------- R2 / R3 -----------------------------------------------
     # the runner folded against scripted fork / waitpid / errno answers; the oracle is the reference wait loop below
     class Halt(Exception):
@@ -59,7 +32,7 @@ def check(ctx, run):
     EINTR, EIO, SIGCONT, WUNTRACED, CHILD = 4, 5, 18, 2, 1234
     SHELL, PLUGIN_, RESULT = 100, 200, 300
 
-    def fold_runner(fork_result, events, failure_counts=(3, 3)):
+    def fold_runner(fork_result, events, failure_counts=(3, 3), shell_failed=0):
         """events: list of ("ok", status) | ("err", errno); the last one repeats for ever. Returns the observation log."""
         log = []
         state = {"i": 0, "fc": 0}
@@ -95,9 +68,10 @@ def check(ctx, run):
         ev = Evaluator(prog, sp, env={sp.params[0]["name"]: SHELL, sp.params[1]["name"]: PLUGIN_, sp.params[2]["name"]: RESULT, "ERRNO[0]": 0}, calls={
             "PlatformSpecificFork": lambda: (log.append(("fork",)), fork_result)[1], "PlatformSpecificWaitPid": waitpid,
             "__errno_location": lambda: ("ptr", "ERRNO", 0), "TestResult::addFailure": lambda *a_: (log.append(("failure",)), 0)[1],
-            "TestResult::getFailureCount": fcount, "kill": lambda pid, sig: (log.append(("kill", pid, sig)), 0)[1],
+            "TestResult::getFailureCount": fcount, "UtestShell::hasFailed": lambda *a_: shell_failed, "kill": lambda pid, sig: (log.append(("kill", pid, sig)), 0)[1],
             "UtestShell::runOneTestInCurrentProcess": lambda *a_: (log.append(("run", a_[0], a_[1])), 0)[1], "_exit": leave, "exit": leave, "_Exit": leave})
         ev.pass_object = True
+        ev.optional_stubs = {"UtestShell::hasFailed"}
         holder["ev"] = ev
         try:
             end, _ = ev.run_blocks(sp.entry, max_steps=20000)
@@ -143,7 +117,7 @@ def check(ctx, run):
     try:
         log = fold_runner(-1, [("ok", 0)])
         ok = [x[0] for x in log] == ["fork", "failure", "end"] and log[-1] == ("end", "return")
-        run.ob("R2", "a failing fork: one failure, no wait, the runner returns", sp.site, ok, witness=[list(map(str, x)) for x in log])
+        run.ob(rid_parent, "a failing fork: one failure, no wait, the runner returns", sp.site, ok, witness=[list(map(str, x)) for x in log])
         seen += 1
         STOP, EXIT0, EXIT3, SIG9, SIG11C = (19 << 8) | 0x7f, 0, 3 << 8, 9, 11 | 0x80
         scripts = [[("ok", EXIT0)], [("ok", EXIT3)], [("ok", SIG9)], [("ok", SIG11C)], [("ok", STOP), ("ok", EXIT0)], [("ok", STOP), ("ok", STOP), ("ok", SIG9)],
@@ -160,27 +134,65 @@ def check(ctx, run):
                 why = "waitpid is not called for this child with WUNTRACED: %s" % [x for x in log if x[0] == "waitpid"][:1]
             elif any(x[0] == "kill" and x[1:] != (CHILD, SIGCONT) for x in log):
                 why = "the stopped child is not continued with kill(child, SIGCONT): %s" % [x for x in log if x[0] == "kill"][:1]
-            run.ob("R2", "parent folded against wait results %s" % [("%s:%s" % (k, ("0x%x" % v) if k == "ok" else {EINTR: "EINTR", EIO: "EIO"}[v])) for k, v in sc], sp.site, not why, witness=got, what=why)
+            run.ob(rid_parent, "parent folded against wait results %s" % [("%s:%s" % (k, ("0x%x" % v) if k == "ok" else {EINTR: "EINTR", EIO: "EIO"}[v])) for k, v in sc], sp.site, not why, witness=got, what=why)
             seen += 1
         log = fold_runner(CHILD, [("err", EINTR)])
         waits = len([x for x in log if x[0] == "waitpid"])
         ok = log[-1] == ("end", "return") and [x[0] for x in log if x[0] in ("failure", "kill")] == ["failure"] and 2 <= waits <= 150
-        run.ob("R2", "EINTR for ever: the runner gives up after a bounded number of retries with exactly one failure", sp.site, ok, witness={"waits": waits, "end": log[-1][1]},
+        run.ob(rid_parent, "EINTR for ever: the runner gives up after a bounded number of retries with exactly one failure", sp.site, ok, witness={"waits": waits, "end": log[-1][1]},
                what="" if ok else "waitpid interrupted for ever: %d waits, ends with %s" % (waits, log[-1][1]))
         seen += 1
         # the child
-        for counts, code in (((3, 3), 0), ((3, 5), 1), ((0, 1), 1)):
-            log = fold_runner(0, [("ok", 0)], failure_counts=counts)
+        # (the shell's own failed flag is scripted independently of the result's failure count: a plugin's post action
+        # adds failures to the result without going through the shell, and a shell that had failed before adds none)
+        for counts, code, sflag in (((3, 3), 0, 0), ((3, 5), 1, 0), ((0, 1), 1, 0), ((3, 3), 0, 1), ((2, 4), 1, 1)):
+            log = fold_runner(0, [("ok", 0)], failure_counts=counts, shell_failed=sflag)
             kinds = [x[0] for x in log]
             ok = kinds == ["fork", "run", "_exit", "end"] and log[-1] == ("end", "_exit")
-            run.ob("R3", "child (failures %d -> %d): runs the test in-process and leaves only through _exit" % counts, sp.site, ok, witness=[list(map(str, x)) for x in log],
+            run.ob(rid_child, "child (failures %d -> %d, shell's own failed flag %d): runs the test in-process and leaves only through _exit" % (counts + (sflag,)), sp.site, ok, witness=[list(map(str, x)) for x in log],
                    what="" if ok else "the child can return into the parent's test loop (tests would run twice), or waits/reports like the parent")
             if ok:
-                run.ob("R3", "child (failures %d -> %d): runs this test with the given plugin chain; exit status is (failures before < failures after)" % counts, sp.site,
+                run.ob(rid_child, "child (failures %d -> %d, shell's own failed flag %d): runs this test with the given plugin chain; exit status is (failures before < failures after)" % (counts + (sflag,)), sp.site,
                        log[1][1:] == (SHELL, PLUGIN_) and log[2] == ("_exit", code), witness=[list(map(str, x)) for x in log[1:3]],
                        what="" if log[2] == ("_exit", code) else "failures recorded directly on the result (plugin actions) would not reach the parent")
     except Unknown as u:
-        run.broke("C11.R2: the separate-process runner cannot be folded: %s" % u)
+        run.broke("%s: " % run.pid + " the separate-process runner cannot be folded: %s" % u)
+
+
+
+def check(ctx, run):
+    prog = ctx.program()
+    run.assume("wait-status encoding and the W* macros are glibc's (trusted base); exited / signalled / stopped are mutually exclusive for statuses the kernel produces")
+    run.not_decided.append("kernel behaviour per signal; that the child really dies the way its status says")
+    run.rule("R1", "status decoding folded over every exit status 0..255, every signal 1..127 (with and without core flag), every stop signal and the continued status: exactly one failure for exit!=0 / signalled / stopped, none for exit 0", floor=600, exhaustive=True)
+    run.rule("R2", "wait loop per iteration: a non-EINTR error or EINTR past the bound reports one failure and returns; EINTR below the bound only counts and retries; a successful wait decodes the status once, continues a stopped child with SIGCONT and repeats until exited or signalled; a failing fork reports once and does not wait", floor=8)
+    run.rule("R3", "the child never returns: on the cpid == 0 branch every path ends in _exit(initial failure count < current failure count) after running the test in-process", floor=2)
+    run.rule("R4", "containment in the runner: both modes go through PlatformSpecificSetJmp; the registry marks every test (not only some) before it runs; fork/waitpid seams forward their arguments", floor=7)
+
+    sp = prog.fn("GccPlatformSpecificRunTestInASeperateProcess")
+    st = prog.fn("SetTestFailureByStatusCode")
+    run.analysed(sp)
+    run.analysed(st)
+
+    # ---------------- R1 ----------------------------------------------------
+    stname = st.params[2]["name"]
+    statuses = [c << 8 for c in range(256)] + [s for s in range(1, 128)] + [s | 0x80 for s in range(1, 128)] + [(s << 8) | 0x7f for s in range(1, 128)] + [0xffff]
+    for s in statuses:
+        ev = Evaluator(prog, st, env={stname: s, st.params[0]["name"]: 1, st.params[1]["name"]: 2})
+        ev.pass_object = True
+        fails = []
+        ev.calls["TestResult::addFailure"] = lambda *a, fails=fails: (fails.append(1), 0)[1]
+        try:
+            ev.run_blocks(st.entry, max_steps=300)
+            got = len(fails)
+        except Unknown as u:
+            got = "unknown: %s" % u
+        kind = posix_decode(s)
+        want = 1 if kind in ("exit", "signal", "stopped") else 0
+        run.ob("R1", "status 0x%04x (%s)" % (s, kind), st.site, got == want, witness={"failures_recorded": got, "oracle": want},
+               what="" if got == want else "a child that %s is recorded with %s failures" % ({"exit": "exits non-zero", "exit0": "exits 0", "signal": "is killed by a signal", "stopped": "is stopped", "other": "continues"}[kind], got))
+
+    separate_process_rules(prog, run, "R2", "R3")
 
     # ---------------- R4 ----------------------------------------------------
     ro = prog.fn("UtestShell::runOneTest")
